@@ -169,7 +169,7 @@ Definition lnk_run (link: N) (gaps: list N) (ps: list packet) (fl: N) : option (
       | 0 => match mapM (fun fs => mapM to_bxcan fs) fss with
              | Val css =>
                  let per_packet := map (fun cs => map (fun c => [CF c]) cs) css in
-                 let toks := weave CWB gaps 0 (concat per_packet) in
+                 let toks := weave (if N.testbit fl 2 then COverrun else CWB) gaps 0 (concat per_packet) in      (* flag 4 on CAN: overrun reports instead of 'no data yet' *)
                  Some (run_polls can toks, [])
              | _ => None end
       | 1 => match mapM (fun fs => mapM wire_usart_frame fs) fss with
